@@ -503,14 +503,21 @@ def dedupNat : List Nat → List Nat
   | [] => []
   | x :: rest => let r := dedupNat rest; if r.contains x then r else x :: r
 
+/-- One pending melt quote re-checked by `ProofsStateCheck`. -/
+def checkStep (acc : MintView × List LnAns × List InvRef) (q : Nat) : MintView × List LnAns × List InvRef :=
+  ((acc.1.meltQuoteState q acc.2.1).1, (acc.1.meltQuoteState q acc.2.1).2.2.1,
+    match (acc.1.meltQuoteState q acc.2.1).2.2.2 with
+    | some i => acc.2.2 ++ [i]
+    | none => acc.2.2)
+
+def pendingQuotesOf (m : MintView) (ss : List SId) : List Nat :=
+  dedupNat ((m.pending.filter (fun (r : SId × UInt64 × Nat) => ss.contains r.1)).map (fun (r : SId × UInt64 × Nat) => r.2.2))
+
 /-- `Mint.ProofsStateCheck`: pending melts of the proofs asked about are re-checked first. -/
 def checkState (m : MintView) (ss : List SId) (script : List LnAns) :
     MintView × CRes (List PState) × List LnAns × List InvRef :=
-  let quotes := dedupNat ((m.pending.filter (fun (r : SId × UInt64 × Nat) => ss.contains r.1)).map (fun (r : SId × UInt64 × Nat) => r.2.2))
-  let (m', script', paid) := quotes.foldl (fun (acc : MintView × List LnAns × List InvRef) q =>
-    let (mm, _, sc, inv) := acc.1.meltQuoteState q acc.2.1
-    (mm, sc, match inv with | some i => acc.2.2 ++ [i] | none => acc.2.2)) (m, script, [])
-  (m', .ok (ss.map m'.stateOf), script', paid)
+  let r := (m.pendingQuotesOf ss).foldl checkStep (m, script, [])
+  (r.1, .ok (ss.map r.1.stateOf), r.2.1, r.2.2)
 
 /-- `Mint.RestoreSignatures`. -/
 def restore (m : MintView) (outs : List SId) : List Sig :=
@@ -914,17 +921,22 @@ def iteM {β : Type} (c : Bool) (t e : PM β) (d : β) : PM β := do
   pure (if c then a else b)
 def loopM {σ : Type} (sample : σ) (fuel : Nat) (init : σ) (body : σ → PM (σ × Bool)) : PM σ :=
   ExceptT.mk (Prog.loop sample fuel init (fun st => (body st).run) .ret)
+def forEachStep {X : Type} (body : X → PM Unit) : List X → PM (List X × Bool)
+  | [] => pure ([], false)
+  | x :: rest => do body x; pure (rest, !rest.isEmpty)
+
 /-- `for _, x := range xs { body x }` -/
 def forEachM {X : Type} (sample : X) (xs : List X) (body : X → PM Unit) : PM Unit := do
-  let _ ← loopM [sample] xs.length xs (fun st => match st with
-    | [] => pure ([], false)
-    | x :: rest => do body x; pure (rest, !rest.isEmpty))
+  let _ ← loopM [sample] xs.length xs (forEachStep body)
   pure ()
+
+def forCollectStep {X Y : Type} (body : X → PM (List Y)) : List X × List Y → PM ((List X × List Y) × Bool)
+  | ([], acc) => pure (([], acc), false)
+  | (x :: rest, acc) => do let ys ← body x; pure ((rest, acc ++ ys), !rest.isEmpty)
+
 /-- the same, collecting results -/
 def forCollectM {X Y : Type} (sample : X) (xs : List X) (body : X → PM (List Y)) : PM (List Y) := do
-  let r ← loopM ([sample], ([] : List Y)) xs.length (xs, []) (fun st => match st with
-    | ([], acc) => pure (([], acc), false)
-    | (x :: rest, acc) => do let ys ← body x; pure ((rest, acc ++ ys), !rest.isEmpty))
+  let r ← loopM ([sample], ([] : List Y)) xs.length (xs, []) (forCollectStep body)
   pure r.2
 
 def cTry {β : Type} (e : Eff (CRes β)) : PM β := do
@@ -1489,6 +1501,37 @@ structure BatchSt where
   restored : List WProof := []
   deriving Inhabited
 
+/-- The proofs a batch of Restore unblinds, with the state the mint reports for each. -/
+def batchProofs (sigs : List Sig) (states : List PState) : List (WProof × PState) :=
+  (sigs.zip states).map (fun ss =>
+    (({ secret := ss.1.out, amount := ss.1.amount, ks := ss.1.ks, dleq := false } : WProof), ss.2))
+
+def batchUnspent (sigs : List Sig) (states : List PState) : List WProof :=
+  ((batchProofs sigs states).filter (·.2 == .unspent)).map (·.1)
+
+def batchPending (sigs : List Sig) (states : List PState) : List WProof :=
+  ((batchProofs sigs states).filter (·.2 == .pending)).map (·.1)
+
+/-- One iteration of Restore's batch loop for keyset `k` of mint `mi`. -/
+def restoreBatch (cx : Cx) (mi : Nat) (k : KsInfo) (fixed : Bool) (b : BatchSt) : PM (BatchSt × Bool) := do
+  let outs : List SId := (List.range 100).map (fun i => SId.det cx.seed k.id (b.counter + i))
+  forEachM 0 (List.range 100) (fun _ => do let _ ← pureSub "generateDeterministicSecret" (); pure ())
+  let counter := b.counter + 100
+  let sigs ← cTry (.cRestore mi outs)
+  if sigs.isEmpty then pure ({ b with counter := counter, empty := b.empty + 1 }, decide (b.empty + 1 < 3))
+  else
+    let states ← cTry (.cCheckState mi (sigs.map (·.out)))
+    let restored := b.restored ++ batchUnspent sigs states
+    let pending := batchPending sigs states
+    eff (.saveProofs restored)
+    whenM (pending.length > 0) (eff (.addPending pending)) ()
+    if !(← eff (.incCounter k.id (if fixed then counter - b.saved else counter))) then throw "increment-counter"
+    pure ({ counter := counter, saved := counter, empty := 0, restored := restored }, true)
+
+/-- Restore's batch loop for one keyset: until three batches in a row are empty. -/
+def restoreKeyset (cx : Cx) (mi : Nat) (k : KsInfo) (fixed : Bool) (maxBatches : Nat) (acc : List WProof) : PM BatchSt :=
+  loopM ({ restored := acc } : BatchSt) maxBatches ({ restored := acc } : BatchSt) (restoreBatch cx mi k fixed)
+
 /-- `Restore(walletPath, mnemonic, mintsToRestore)` into an empty store.  `fixed = false` is the code before
     the `fix:` commit (the cumulative counter is added after every non-empty batch). -/
 def restore (cx : Cx) (mints : List Nat) (fixed : Bool := true) (maxBatches : Nat := 1000) : PM UInt64 := do
@@ -1503,26 +1546,45 @@ def restore (cx : Cx) (mints : List Nat) (fixed : Bool := true) (maxBatches : Na
         | (k :: krest, acc1) => do
           subM "" (cTry (.cKeysetById mi k.id))
           eff (.saveKeyset { mint := mi, id := k.id, active := k.active, ppk := 0, counter := 0 })
-          let b ← loopM ({ restored := acc1 } : BatchSt) maxBatches ({ restored := acc1 } : BatchSt) (fun b => do
-            let outs : List SId := (List.range 100).map (fun i => SId.det cx.seed k.id (b.counter + i))
-            forEachM 0 (List.range 100) (fun _ => do let _ ← pureSub "generateDeterministicSecret" (); pure ())
-            let counter := b.counter + 100
-            let sigs ← cTry (.cRestore mi outs)
-            if sigs.isEmpty then pure ({ b with counter := counter, empty := b.empty + 1 }, decide (b.empty + 1 < 3))
-            else
-              let states ← cTry (.cCheckState mi (sigs.map (·.out)))
-              let ps : List (WProof × PState) := (sigs.zip states).map (fun ss =>
-                (({ secret := ss.1.out, amount := ss.1.amount, ks := ss.1.ks, dleq := false } : WProof), ss.2))
-              let restored := b.restored ++ (ps.filter (·.2 == .unspent)).map (·.1)
-              let pending := (ps.filter (·.2 == .pending)).map (·.1)
-              eff (.saveProofs restored)
-              whenM (pending.length > 0) (eff (.addPending pending)) ()
-              if !(← eff (.incCounter k.id (if fixed then counter - b.saved else counter))) then throw "increment-counter"
-              pure ({ counter := counter, saved := counter, empty := 0, restored := restored }, true))
+          let b ← restoreKeyset cx mi k fixed maxBatches acc1
           pure ((krest, b.restored), !krest.isEmpty))
       pure ((rest, acc.2), !rest.isEmpty))
   eff .close
   pure (proofsAmount all.2)
+
+/-! ### the control skeleton of Restore's batch loop (pure)
+
+`nonEmpty b`: the mint returns at least one signature for batch `b` (counters `100·b … 100·b+99`).  The loop
+visits batches in order until three in a row are empty; after every non-empty batch it calls
+`IncrementKeysetCounter(id, counter - savedCounter)` (before the `fix:` commit: `(id, counter)`, the cumulative
+counter).  `Gonuts/Lemmas/WalletBooksRestore.lean` proves what this computes and that the `restore` program's
+loop follows it. -/
+
+structure Scan where
+  /-- next batch to ask for -/
+  batch : Nat := 0
+  /-- `emptyBatches` -/
+  empty : Nat := 0
+  /-- `savedCounter` -/
+  saved : Nat := 0
+  /-- the stored keyset counter -/
+  stored : Nat := 0
+  deriving DecidableEq, Repr, Inhabited
+
+def scanStep (nonEmpty : Nat → Bool) (fixed : Bool) (s : Scan) : Scan :=
+  let counter := 100 * (s.batch + 1)
+  if nonEmpty s.batch then
+    { batch := s.batch + 1, empty := 0, saved := counter,
+      stored := s.stored + (if fixed then counter - s.saved else counter) }
+  else { s with batch := s.batch + 1, empty := s.empty + 1 }
+
+def scan (nonEmpty : Nat → Bool) (fixed : Bool) : Nat → Scan → Scan
+  | 0, s => s
+  | fuel + 1, s => if s.empty < 3 then scan nonEmpty fixed fuel (scanStep nonEmpty fixed s) else s
+
+/-- Batch `b` of (seed, keyset) has a signed output at the mint. -/
+def batchSigned (m : MintView) (seed : Nat) (ks : KsId) (b : Nat) : Bool :=
+  (List.range 100).any (fun i => m.isSigned (.det seed ks (100 * b + i)))
 
 /-! ## operations of a history -/
 
